@@ -20,18 +20,26 @@ except Exception:
     pass
 def sh(cmd, **kw):
     return subprocess.run(cmd, shell=True, capture_output=True, text=True, **kw)
+# the patch is applied in a scratch worktree of /repo's HEAD (never in /repo itself, so that this can
+# run while other work uses /repo); the checks see it through PYTHONPATH, which takes precedence
+# over the editable install
 assert sh('git -C /repo status --porcelain').stdout.strip() == '', '/repo not clean'
 conf = {'repo_head': sh('git -C /repo rev-parse --short HEAD').stdout.strip()}
+WT = '/tmp/wt/_seedtest_%s' % name
+sh('git -C /repo worktree remove --force %s' % WT)
+assert sh('git -C /repo worktree add --detach %s HEAD -q' % WT).returncode == 0
 env = dict(os.environ, PYTHONPATH='/repo')
 r = sh('/venv/bin/python %s/demo.py' % dst, env=env, cwd='/tmp'); conf['demo_clean_exit'] = r.returncode
-ap = sh('git -C /repo apply %s/patch.diff' % dst)
+ap = sh('git -C %s apply %s/patch.diff' % (WT, dst))
 if ap.returncode != 0:
+    sh('git -C /repo worktree remove --force %s' % WT)
     print('patch does not apply:', ap.stderr); sys.exit(2)
+env = dict(os.environ, PYTHONPATH=WT)
 try:
     r = sh('/venv/bin/python %s/demo.py' % dst, env=env, cwd='/tmp'); conf['demo_patched_exit'] = r.returncode
     conf['demo_patched_output'] = (r.stdout + r.stderr)[-600:]
     if run_tests:
-        t = sh('cd /repo && /venv/bin/python -m pytest -q -p no:cacheprovider --timeout=900 --continue-on-collection-errors -rf 2>&1 | tail -45')
+        t = sh('cd %s && /venv/bin/python -m pytest -q -p no:cacheprovider --timeout=900 --continue-on-collection-errors -rf 2>&1 | tail -45' % WT, env=env)
         failed = sorted(set(re.findall(r'^FAILED (\S+)', t.stdout, re.M)))
         m = re.search(r'(\d+) failed, (\d+) passed', t.stdout)
         conf['tests'] = {'failed': int(m.group(1)) if m else None, 'passed': int(m.group(2)) if m else None,
@@ -39,7 +47,7 @@ try:
     t0 = time.time()
     evf = '/verif/evidence/%s.json' % prop
     saved = open(evf).read() if os.path.exists(evf) else None
-    c = sh('cd /verif && VERIF_TIER=%s ./check %s --tier %s' % (tier, prop, tier))
+    c = sh('cd /verif && VERIF_TIER=%s ./check %s --tier %s' % (tier, prop, tier), env=env)
     if saved is not None:      # evidence of a run on a patched tree must not be kept
         open(evf, 'w').write(saved)
     viol = re.findall(r'^VIOLATION .*', c.stdout, re.M)
@@ -47,8 +55,8 @@ try:
                      'first': (viol[0] if viol else ''), 'wall_s': round(time.time() - t0, 1),
                      'detail': [l for l in c.stdout.splitlines() if l.startswith('  ')][:2]}
 finally:
-    sh('git -C /repo checkout -- .')
-    sh('git -C /repo clean -fdq -- textx tests')
+    sh('git -C /repo worktree remove --force %s' % WT)
+    sh('git -C /repo worktree prune')
 conf['detected'] = conf.get('check', {}).get('exit') == 1
 meta['property'] = prop
 meta['confirmation'] = conf
